@@ -6,7 +6,7 @@ from __future__ import annotations
 from checks.sctp_common import base_problems, drain_verdict, session_classes
 from vlib.runner import Check, Family, Outcome
 from vlib.sctpsim import Session
-from vlib.strategies import rto_window_case, session_case
+from vlib.strategies import rto_window_case, session_case, yielding
 
 
 def run_session(case: dict) -> Outcome:
@@ -58,8 +58,12 @@ CHECK = Check(
                lambda tier: session_case(tier, reliable_only=True, max_sends=30 if tier == "quick" else 60, loss_bias=True, burst_bias=True, warmup=True),
                quick=6000, thorough=100000, min_shard=20),
         Family("rto-window", run_session, rto_window_case, quick=15000, thorough=100000, min_shard=20),
+        # the same space over a transport whose send suspends (a TURN relay binding or refreshing a channel)
+        Family("yielding-send", run_session,
+               lambda tier: yielding(session_case(tier, reliable_only=True, max_sends=30 if tier == "quick" else 60, loss_bias=True, burst_bias=True, warmup=True)),
+               quick=2000, thorough=40000, min_shard=20),
     ],
     floor=200,
     assumptions=["liveness is decided as bounded liveness under the virtual clock (horizon 900 s after healing)",
-                 "datagram send does not yield; DTLS is a pass-through fake"],
+                 "DTLS is a pass-through fake; a suspending send is modelled as a per-datagram pattern of 0 / one loop turn / 1 ms..1.2 s"],
 )
